@@ -167,8 +167,12 @@ pub fn families() -> Vec<Box<dyn Family>> {
                 let alpha: u32 = if rng.chance(1, 2) { 1_000_000_000 } else { 50 };
                 let a: Vec<u32> = if alpha > 50 { (0..n as u32).collect() } else { (0..n).map(|_| rng.below(50) as u32).collect() };
                 let mut b = a.clone();
-                for _ in 0..1 + rng.below(4) {
-                    let i = rng.below(b.len());
+                // half of the cases: exactly two edits near the two ends, i.e. ONE equal run of about
+                // 0.9 N items between them (the work on such a run must be linear in its length)
+                let far_apart = idx % 2 == 0;
+                let positions: Vec<usize> = if far_apart { vec![n / 20 + rng.below(n / 50 + 1), n - n / 20 - rng.below(n / 50 + 1)] } else { (0..1 + rng.below(4)).map(|_| rng.below(n)).collect() };
+                for i in positions {
+                    let i = i.min(b.len() - 1);
                     match rng.below(3) {
                         0 => b[i] = 2_000_000_000 + rng.below(1000) as u32,
                         1 => {
